@@ -221,7 +221,7 @@ impl Property for C15 {
 		"C15"
 	}
 	fn rule(&self) -> &'static str {
-		"each case generates a listener (position, unit-quaternion orientation), a spatial track (emitter coincident with the listener, on a listener axis, inside the distance range, or anywhere up to 1e5 units away; distances min < max; attenuation easing or none; strength in [0,1]) and a DC input (equal or unequal stereo), renders the steady-state output frame through the manager and checks it against the documented model level = attenuation(distance) x ear gains (f64, tolerance scaled with coordinate magnitude) and one of the relations between renders from fresh managers: attenuation 1 inside the minimum distance, 0 at or beyond the maximum, non-increasing along a ray; ear gains within [1-strength, 1]; emitter on the listener's right gives right >= left; mirroring the emitter through the listener's median plane swaps the channels; a rigid motion of listener and emitter together leaves the output unchanged; strength 0 passes stereo unpanned; a dropped listener (or one whose slot has been reused) silences the track exactly from the next callback; a FromListenerDistance parameter (on the track, on a non-spatial child and on a non-spatial grandchild) equals the mapping of the true distance; position / orientation tweens end at the static result, and the same move commanded with instant tweens before the first callback is complete from the second callback on; nested spatial tracks use their own listener and position. Non-trivial = emitter off the listener's axes and strictly between min and max; distinct = distinct decoded choices."
+		"each case generates a listener (position, unit-quaternion orientation), a spatial track (emitter coincident with the listener, on a listener axis, inside the distance range, or anywhere up to 1e5 units away; distances min < max; attenuation easing or none; strength in [0,1]) and a DC input (equal or unequal stereo), renders the steady-state output frame through the manager and checks it against the documented model level = attenuation(distance) x ear gains (f64, tolerance scaled with coordinate magnitude) and one of the relations between renders from fresh managers: attenuation 1 inside the minimum distance, 0 at or beyond the maximum, non-increasing along a ray; ear gains within [1-strength, 1]; emitter on the listener's right gives right >= left; mirroring the emitter through the listener's median plane swaps the channels; a rigid motion of listener and emitter together leaves the output unchanged, and so does every frame of the same translation carried out while playing, with listener and emitter positions both linked to one tweener modulator; strength 0 passes stereo unpanned; a dropped listener (or one whose slot has been reused) silences the track exactly from the next callback; a FromListenerDistance parameter (on the track, on a non-spatial child and on a non-spatial grandchild) equals the mapping of the true distance; position / orientation tweens end at the static result, and the same move commanded with instant tweens before the first callback is complete from the second callback on; nested spatial tracks use their own listener and position. Non-trivial = emitter off the listener's axes and strictly between min and max; distinct = distinct decoded choices."
 	}
 	fn assumptions(&self) -> Vec<String> {
 		vec![
@@ -329,6 +329,52 @@ impl Property for C15 {
 				let o = render(&h)?;
 				let tol2 = (scale(&h) + tol) * 4.0 + 1e-4 * (out.0.abs().max(out.1.abs()) as f64);
 				ensure!(close(o.0, out.0 as f64, tol2) && close(o.1, out.1 as f64, tol2), "invariant-under-rigid-motion", "output {out:?} became {o:?} after moving listener and emitter together; {g:?} -> {h:?}");
+				// the same translation carried out while playing: listener and emitter positions are
+				// both linked to one tweener modulator (mappings that differ by the constant offset
+				// between them), so every frame of the move is a translated copy of the scene
+				let mut moved = g.clone();
+				moved.listener_pos = (v(g.listener_pos) + t).to_array();
+				moved.emitter = (v(g.emitter) + t).to_array();
+				let tol3 = (scale(&moved) + tol) * 4.0 + 1e-4 * (out.0.abs().max(out.1.abs()) as f64);
+				let chunks = src.usize_in(1, 6);
+				let mut mgr = default_manager(48000, g.ibs);
+				let mut tweener = mgr.add_modulator(kira::modulator::tweener::TweenerBuilder { initial_value: 0.0 }).map_err(|_| Failure::simple("setup", "modulator"))?;
+				let link = |from: Vec3, to: Vec3| -> Value<mint::Vector3<f32>> {
+					Value::FromModulator {
+						id: tweener.id().into(),
+						mapping: Mapping {
+							input_range: (0.0, 1.0),
+							output_range: (from.into(), to.into()),
+							easing: Easing::Linear,
+						},
+					}
+				};
+				let listener = mgr.add_listener(link(v(g.listener_pos), v(moved.listener_pos)), q(g.listener_rot)).map_err(|_| Failure::simple("setup", "listener"))?;
+				let mut track = mgr
+					.add_spatial_sub_track(&listener, link(v(g.emitter), v(moved.emitter)), SpatialTrackBuilder::new().distances((g.min, g.max)).attenuation_function(g.attenuation).spatialization_strength(g.strength))
+					.map_err(|_| Failure::simple("setup", "track"))?;
+				track.play(ProbeSoundData::new(Signal::Dc(g.input.0, g.input.1), None)).map_err(|_| Failure::simple("setup", "sound"))?;
+				last_frame(&mut mgr, g.ibs)?;
+				tweener.set(
+					1.0,
+					Tween {
+						duration: Duration::from_secs_f64(chunks as f64 * g.ibs as f64 / 48000.0),
+						..Default::default()
+					},
+				);
+				for n in 0..chunks + 3 {
+					let cb = mgr.backend_mut().callback(g.ibs, 2);
+					if let Some(p) = &cb.guard.panic {
+						return Err(Failure::panic("", p));
+					}
+					for (i, f) in cb.out.chunks(2).enumerate() {
+						ensure!(
+							close(f[0], out.0 as f64, tol3) && close(f[1], out.1 as f64, tol3),
+							"invariant-under-rigid-motion",
+							"listener and emitter both follow one tweener (translation by {t:?} over {chunks} callbacks): frame {i} of callback {n} after the move began is {f:?}, the scene at rest gives {out:?} (tolerance {tol3:e}); {g:?}"
+						);
+					}
+				}
 			}
 			6 => {
 				class = "strength-zero";
